@@ -8,7 +8,7 @@ use proptest::prelude::*;
 use serde::{Deserialize, Serialize};
 use serde_json::json;
 
-use crate::engine::{catch, chunk, Failure, Prop, Stats, Tier, F};
+use crate::engine::{catch, chunk, guarded, Failure, Prop, Stats, Tier, F};
 use crate::gen::{self, ParamSpec, Site};
 
 pub struct C14;
@@ -222,7 +222,7 @@ impl Prop for C14 {
             let len = lens[(idx as usize) / starts.len()];
             for k in 0..=64u32 {
                 let c = Case { start, len, k, setup: (idx % 6) as u8, run_range_api: k == 0 };
-                check_case(&c, st).map_err(|f| (c.clone(), f))?;
+                guarded(&c, || check_case(&c, st))?;
                 if (len > 0 && k >= 2) || len <= 0 {
                     st.nontrivial_enum(1);
                 }
